@@ -22,6 +22,7 @@ import (
 
 	"verif/gen/pegen"
 	"verif/gen/shape"
+	"verif/gen/zpkggen"
 	"verif/relicx"
 )
 
@@ -81,6 +82,8 @@ type worker struct {
 	built   map[string][]byte
 	lastKey string
 }
+
+var zipTypes = map[string]bool{"jar": true, "apk": true, "apk-v1v2": true, "appx": true, "xap": true, "vsix": true}
 
 type panicInfo struct {
 	val   any
@@ -258,6 +261,11 @@ func (w *worker) evalPath(c caseDef, path string) (o obs) {
 			return
 		}
 		data, _ = os.ReadFile(in)
+		if _, _, err := zpkggen.ReadZip(data); err != nil {
+			o.Result = "ok"
+			add("output-zip-corrupt", "", "after the v1 (jar --apk-v2-present) step archive/zip cannot read the package: %v", err)
+			return
+		}
 	}
 	if err := os.WriteFile(in, data, 0o644); err != nil {
 		panic(err)
@@ -363,6 +371,14 @@ func (w *worker) checkOutput(c caseDef, in, out string, input []byte, o *obs, ad
 			if want := pegen.Checksum(b, off); got != want {
 				add("pe-checksum-wrong", "", "CheckSum field %#x after signing, image sums to %#x", got, want)
 			}
+		}
+	}
+	if zipTypes[c.T.Name] {
+		// the artifact must still be a ZIP every standard reader opens (archive/zip, all members read to the end)
+		b, _ := os.ReadFile(out)
+		if _, _, err := zpkggen.ReadZip(b); err != nil {
+			add("output-zip-corrupt", "", "archive/zip cannot read the signed package: %v", err)
+			return
 		}
 	}
 	opts := w.verify
